@@ -65,6 +65,17 @@ Proof. exact lookalike_proof. Qed.
 Theorem start_marker_search : forall (d : delims), wf_delims d = true -> finder_ok d.
 Proof. exact finder_ok_all. Qed.
 
+(* The search for an END delimiter (utils.rs memstr as the lexer uses it: the comment end, the block start inside a raw
+   block) returns the first occurrence of the delimiter, or nothing when there is none -- for every needle and haystack,
+   in particular for self-overlapping delimiters (`-->`, `##}`, `{{%`) preceded by a copy of their first character. *)
+Theorem end_marker_search : forall (n h : list Z),
+  match find_sub n h 0 with
+  | Some j => exists pre post, h = pre ++ n ++ post /\ lenZ pre = j /\
+                               (forall pre' post', h = pre' ++ n ++ post' -> j <= lenZ pre')
+  | None => forall pre post, h <> pre ++ n ++ post
+  end.
+Proof. exact end_marker_search_proof. Qed.
+
 (* No configuration that build() accepts can make the lexer panic, whatever the template source; a configuration
    with an empty end delimiter is rejected (the defect fixed by 518ebef: it used to be accepted and the first
    comment panicked in memstr). *)
@@ -136,6 +147,7 @@ Print Assumptions rendered_verbatim.
 Print Assumptions delims_irrelevant.
 Print Assumptions lookalike_is_text.
 Print Assumptions start_marker_search.
+Print Assumptions end_marker_search.
 Print Assumptions no_panic.
 Print Assumptions raw_lstrip_refuted_before_fix.
 Print Assumptions lone_cr_lstrip_refuted_before_fix.
